@@ -1,8 +1,12 @@
 import Tv.Handlers.C01
 import Tv.Handlers.C02
+import Tv.Handlers.Cross
 open Tv Tv.Proto Tv.Handlers
 
-def handlers : List (String → Req → Option (String × String)) := [c01, c02]
+/-- per-function handlers -/
+def baseHandlers : List Handler := [c01, c02]
+
+def handlers : List Handler := baseHandlers ++ [c06 baseHandlers]
 
 def respond (line : String) : String :=
   let (fn, r) := parseReq line
